@@ -5,7 +5,7 @@ PROP = "C20"
 GEN = ["KeyCheck", "CallSites"]
 VO = ["Properties/C20.vo", "Extract/D_C20.vo", "Extract/O_C20.vo"]
 MODULE = "Properties.C20"
-THEOREMS = ["c20_exact", "c20_legal_meaning", "c20_accept_iff", "c20_unencodable_rejected", "c20_same_rule"]
+THEOREMS = ["c20_exact", "c20_legal_meaning", "c20_accept_iff", "c20_unencodable_rejected", "c20_same_rule", "c20_prefix_everywhere"]
 DRIVER = "D_C20"
 ORACLE = "O_C20"
 TECHNIQUE = ("Coq proof that the Gallina translation of check_key_helper (regenerated every run) equals the documented "
@@ -14,7 +14,8 @@ TECHNIQUE = ("Coq proof that the Gallina translation of check_key_helper (regene
 LEVEL_TEXT = ("c20_exact: for all keys (any list of code points or bytes), prefixes and both allow_unicode_keys settings the "
               "translated check_key_helper returns prefix+encoded key iff 1..250 bytes without whitespace/NUL, else "
               "MemcacheIllegalInputError; c20_legal_meaning ties the predicate to the documented byte list; c20_same_rule "
-              "checks the generated call-site table. Universal over keys, which sampling cannot give.")
+              "checks the generated call-site table; c20_prefix_everywhere: every key-taking command of Client hands self.key_prefix to the "
+              "check (table of prefix arguments read from base.py each run). Universal over keys, which sampling cannot give.")
 LEVEL_NOTE = ("Trusted: Coq kernel; translator (dyn mode) and PM.Lib.Py's bytes.split/encode/len/in; extraction + driver. "
               "Exception message expressions are not evaluated by the translator. No axioms.")
 TRUSTED = [
@@ -107,6 +108,101 @@ def correspondence(ctx):
             "disagreements": dis}
 
 
+class _RecSock:
+    def __init__(self, log):
+        self.log = log
+
+    def connect(self, a):
+        pass
+
+    def settimeout(self, t):
+        pass
+
+    def setsockopt(self, *a):
+        pass
+
+    def sendall(self, d):
+        self.log.append(bytes(d))
+
+    def recv(self, n):
+        return b"END\r\n"
+
+    def close(self):
+        pass
+
+
+class _RecMod:
+    """socket module stand-in: records what is written, answers every read with END"""
+    import socket as _s
+    AF_UNIX, AF_UNSPEC, AF_INET, SOCK_STREAM, IPPROTO_TCP, TCP_NODELAY = _s.AF_UNIX, _s.AF_UNSPEC, _s.AF_INET, _s.SOCK_STREAM, _s.IPPROTO_TCP, _s.TCP_NODELAY
+    error, timeout = OSError, _s.timeout
+
+    def __init__(self):
+        self.log = []
+
+    def getaddrinfo(self, host, port, *a, **k):
+        return [(self.AF_INET, self.SOCK_STREAM, self.IPPROTO_TCP, "", (host, port))]
+
+    def socket(self, *a, **k):
+        return _RecSock(self.log)
+
+
+# every key-taking public command: name -> call on a client with key k (replies are not awaited, or END is enough)
+COMMANDS = [
+    ("get", lambda c, k: c.get(k)), ("gets", lambda c, k: c.gets(k)), ("get_many", lambda c, k: c.get_many([k])),
+    ("gets_many", lambda c, k: c.gets_many([k])), ("get_multi", lambda c, k: c.get_multi([k])),
+    ("gat", lambda c, k: c.gat(k, 1)), ("gats", lambda c, k: c.gats(k, 1)),
+    ("set", lambda c, k: c.set(k, b"v", noreply=True)), ("add", lambda c, k: c.add(k, b"v", noreply=True)),
+    ("replace", lambda c, k: c.replace(k, b"v", noreply=True)), ("append", lambda c, k: c.append(k, b"v", noreply=True)),
+    ("prepend", lambda c, k: c.prepend(k, b"v", noreply=True)), ("cas", lambda c, k: c.cas(k, b"v", b"1", noreply=True)),
+    ("set_many", lambda c, k: c.set_many({k: b"v"}, noreply=True)), ("set_multi", lambda c, k: c.set_multi({k: b"v"}, noreply=True)),
+    ("delete", lambda c, k: c.delete(k, noreply=True)), ("delete_many", lambda c, k: c.delete_many([k], noreply=True)),
+    ("delete_multi", lambda c, k: c.delete_multi([k], noreply=True)),
+    ("incr", lambda c, k: c.incr(k, 1, noreply=True)), ("decr", lambda c, k: c.decr(k, 1, noreply=True)),
+    ("touch", lambda c, k: c.touch(k, 1, noreply=True)),
+]
+
+
+def command_probe(cs, spec):
+    """Every key-taking command of Client, PooledClient and HashClient over a recording socket: the key is accepted exactly when the
+    specification accepts it, and the key token on the wire is exactly the specification's prefix + encoded key."""
+    from pymemcache.client.base import Client, PooledClient
+    from pymemcache.client.hash import HashClient
+    from harness.core import exn_name
+    found, n = [], 0
+    objs = {}
+    picked = [(c, s) for i, (c, s) in enumerate(zip(cs, spec))
+              if s != ("ok", b"") and (len(c[0]) >= 200 or len(c[2]) >= 200 or (c[2] and i % 5 == 0) or i % 40 == 0)]
+    for (k, allow, p), s in picked:
+        if (allow, p) not in objs:
+            mods = [_RecMod(), _RecMod(), _RecMod()]
+            objs[(allow, p)] = (mods, (Client(("h", 1), key_prefix=p, allow_unicode_keys=allow, socket_module=mods[0]),
+                                       PooledClient(("h", 1), key_prefix=p, allow_unicode_keys=allow, socket_module=mods[1]),
+                                       HashClient([("h", 1)], key_prefix=p, allow_unicode_keys=allow, socket_module=mods[2])))
+        mods, clients = objs[(allow, p)]
+        for mod, cl in zip(mods, clients):
+            for name, f in COMMANDS:
+                if not hasattr(cl, name):
+                    continue
+                n += 1
+                del mod.log[:]
+                try:
+                    f(cl, k)
+                    sent = b"".join(mod.log)
+                    toks = sent.split(b"\r\n")[0].split(b" ")
+                    at = 2 if name in ("gat", "gats") else 1          # gat <exptime> <key>
+                    got = ("ok", toks[at] if len(toks) > at else None)
+                except BaseException as e:  # noqa
+                    got = ("ex", exn_name(e))
+                    if mod.log:
+                        got = ("ex+sent", exn_name(e))
+                if got != s:
+                    found.append({"input": {"key": repr(k), "allow_unicode_keys": allow, "prefix": repr(p), "command": name},
+                                  "site": "%s.%s" % (type(cl).__name__, name), "observed": repr(got), "expected": repr(s),
+                                  "oracle": "Spec.LegalKey.key_spec (extracted)", "size": len(k) + len(p)})
+    return found, n
+
+
 def search(ctx):
     """Implementation (helper and the three classes) vs the extracted specification key_spec."""
     from pymemcache.client.base import Client, PooledClient
@@ -146,7 +242,9 @@ def search(ctx):
                 found.append({"input": {"key": repr(k), "allow_unicode_keys": allow, "prefix": repr(p)}, "site": site,
                               "observed": repr(got), "expected": repr(s), "oracle": "Spec.LegalKey.key_spec (extracted)",
                               "size": len(k) + len(p)})
-    ctx.search_summary = {"helper_vs_spec": len(cs), "class_sites_vs_spec": n_cls}
+    f2, n_cmd = command_probe(cs, spec)
+    found += f2
+    ctx.search_summary = {"helper_vs_spec": len(cs), "class_sites_vs_spec": n_cls, "commands_vs_spec": n_cmd}
     found.sort(key=lambda v: v["size"])
     return found[:1]
 
@@ -157,6 +255,12 @@ def replay(ctx, obj):
         return None
     i = v["input"]
     k, p = eval(i["key"]), eval(i["prefix"])
+    if i.get("command"):
+        spec = ctx.oracle.call_many([(2, (k, i["allow_unicode_keys"], p))])
+        f, _ = command_probe([(k, i["allow_unicode_keys"], b"x" * 200 if False else p)], spec)
+        f = [x for x in f if x["site"] == v["site"]]
+        print(v["site"], "key", repr(k)[:60], "prefix", repr(p)[:40], "->", f[0]["observed"] if f else "as the specification says", " expected", v["expected"])
+        return bool(f)
     r = impl_helper(k, i["allow_unicode_keys"], p)
     print("check_key_helper(%r, %r, %r) ->" % (k, i["allow_unicode_keys"], p), r, " expected", v["expected"])
     return repr(r) != v["expected"]
